@@ -378,7 +378,7 @@ class AstInfo:
             )
 
     @staticmethod
-    def _else_lines(node: _ast.If | _ast.For | _ast.While) -> Iterable[int]:
+    def _else_lines(node: _ast.If | _ast.For | _ast.AsyncFor | _ast.While) -> Iterable[int]:
         return AstInfo._inter_lines(node.body, node.orelse)
 
     @staticmethod
@@ -437,7 +437,7 @@ class AstInfo:
             return False
 
         for branch_node in nodes_of_class(
-            self.ast, (ast.If, ast.For, ast.While, ast.Match, ast.Try, TryStar)
+            self.ast, (ast.If, ast.For, ast.AsyncFor, ast.While, ast.Match, ast.Try, TryStar)
         ):
             # Skip nodes that do not contains the lineno
             start, end = scope_line_range(branch_node)
@@ -461,7 +461,10 @@ class AstInfo:
             # the "try" branch of "Try" and "TryStar" nodes by checking that the
             # branch in which the line number is contained is in the cover lines.
             if (
-                isinstance(branch_node, ast.If | ast.For | ast.While | ast.Try | TryStar)
+                isinstance(
+                    branch_node,
+                    ast.If | ast.For | ast.AsyncFor | ast.While | ast.Try | TryStar,
+                )
                 and self._in_body(branch_node.body, lineno)
                 and start in self.module.no_cover_lines
             ):
@@ -499,7 +502,7 @@ class AstInfo:
             # branches, and if they were in the `no_cover_lines`, it would also influence
             # all the "elif" and "else" branches they contain.
             if (
-                isinstance(branch_node, ast.If | ast.For | ast.While)
+                isinstance(branch_node, ast.If | ast.For | ast.AsyncFor | ast.While)
                 and (not isinstance(branch_node, ast.If) or not _has_elif_block(branch_node))
                 and self._in_body(branch_node.orelse, lineno)
                 and any(
@@ -524,17 +527,19 @@ class AstInfo:
             True if it should be covered, False otherwise.
             Defaults to True if there is no conditional statement at lineno.
         """
-        for branch_node in nodes_of_class(self.ast, (ast.If, ast.For, ast.While, ast.match_case)):
+        for branch_node in nodes_of_class(
+            self.ast, (ast.If, ast.For, ast.AsyncFor, ast.While, ast.match_case)
+        ):
             start = scope_line_range(branch_node)[0]
             if start == lineno or (
-                isinstance(branch_node, ast.If | ast.For | ast.While)
+                isinstance(branch_node, ast.If | ast.For | ast.AsyncFor | ast.While)
                 and lineno in self._else_lines(branch_node)
             ):
                 return self.should_cover_line(start) and (
                     isinstance(branch_node, ast.match_case)
                     or (isinstance(branch_node, ast.If) and _has_elif_block(branch_node))
                     or (
-                        isinstance(branch_node, ast.If | ast.For | ast.While)
+                        isinstance(branch_node, ast.If | ast.For | ast.AsyncFor | ast.While)
                         and all(
                             self.should_cover_line(else_lineno)
                             for else_lineno in self._else_lines(branch_node)
